@@ -286,6 +286,12 @@ var c09instants = []c09instant{
 	{"1999-12-31 23:59:59", 1999, 12, 31, 23, 59, 59, 0, 0, false},
 	{"2020-02-29 12:00:00.5", 2020, 2, 29, 12, 0, 0, 500000000, 0, false},
 	{"", 0, 0, 0, 0, 0, 0, 0, 0, true}, // now()
+	// equally long spellings whose text order is not their time order
+	{"2000-01-01T00:00:00+01:00", 2000, 1, 1, 0, 0, 0, 0, 3600, true},
+	{"2000-01-01T00:30:00+02:00", 2000, 1, 1, 0, 30, 0, 0, 7200, true},
+	{"1999-12-31T23:00:00-05:00", 1999, 12, 31, 23, 0, 0, 0, -18000, true},
+	{"2000-01-01 00:00:00.95", 2000, 1, 1, 0, 0, 0, 950000000, 0, false},
+	{"2000-01-01T00:00:00.5Z", 2000, 1, 1, 0, 0, 0, 500000000, 0, true},
 }
 
 var c09now = time.Date(2010, 6, 15, 10, 30, 0, 7, time.UTC)
